@@ -43,7 +43,7 @@ type C18Case struct {
 
 var c18Priors = []string{"none", "same", "stale", "empty", "foreign", "failed-run-before", "dry-run-before"}
 
-var c18Forms = []string{"rel-pkgdir", "rel-modroot", "abs", "gofile", "gofile-overridden", "symlink-modroot", "gofile-with-dir"}
+var c18Forms = []string{"rel-pkgdir", "rel-modroot", "abs", "gofile", "gofile-overridden", "symlink-modroot", "gofile-with-dir", "setup-is-link"}
 var c18Outs = []string{"none", "same-dir", "subdir", "dotdot-outside"}
 
 func genC18(cfg Config, ws *WorldSet, accepted []int, i int) C18Case {
@@ -199,6 +199,7 @@ func execC18(env *sim.Env, c C18Case) CaseResult {
 	run := Step{Op: "run", Inv: &iv, Bin: c.Bin, Plan: c.Plan}
 	var steps []Step
 	nHist := 0 // steps of a prior history that leave nothing at the output path
+	nPreLink := 0
 	switch c.Prior {
 	case "same":
 		steps = append(steps, Step{Op: "write", Path: iv.OutPath, Data: c.Canon})
@@ -222,6 +223,15 @@ func execC18(env *sim.Env, c C18Case) CaseResult {
 	case "foreign":
 		steps = append(steps, Step{Op: "write", Path: iv.OutPath, Data: []byte("package " + pkgNameOf(c.World.Files[c.World.Setup]) + "\n\n// Placeholder was written by hand.\nvar Placeholder = 1\n")})
 	}
+	if c.Form == "setup-is-link" {
+		// the setup file's name is a symbolic link to a file kept in a directory the go
+		// tool does not look into: "the input path" is the path the user gave, and
+		// that is where ".gen" goes, whatever the link points to
+		setup := "{W}/" + c.World.Setup
+		kept := "{W}/mod/_defs/" + filepath.Base(c.World.Setup)
+		steps = append([]Step{{Op: "write", Path: kept, Data: []byte(c.World.Files[c.World.Setup])}, {Op: "remove", Path: setup}, {Op: "symlink", Path: setup, Data: []byte(kept)}}, steps...)
+		nPreLink = 3
+	}
 	steps = append([]Step{{Op: "symlink", Path: "{W}/elsewhere/modlink", Data: []byte("{W}/mod")}}, steps...)
 	nPre := 0
 	if c.LinkOut {
@@ -234,8 +244,8 @@ func execC18(env *sim.Env, c C18Case) CaseResult {
 	rs := rsAll[len(rsAll)-1:]
 	r := &rs[0]
 	prior, priorExists := []byte(nil), false
-	if nHist == 0 && len(steps) > 2+nPre {
-		prior, priorExists = steps[1+nPre].Data, true
+	if nHist == 0 && len(steps) > 2+nPre+nPreLink {
+		prior, priorExists = steps[1+nPre+nPreLink].Data, true
 	}
 	otherDir := c.OutKind == "subdir" || c.OutKind == "dotdot-outside"
 	if r.Err != nil || r.Obs == nil || strings.HasPrefix(r.Obs.Status, "starterr") {
